@@ -91,6 +91,17 @@ static int parseModeNumber(const char *arg)
     return (int)v;
 }
 /*
+closeFiles:关闭参数包中已打开的文件(解析失败时调用)
+res:参数包指针
+*/
+static void closeFiles(vpak_t *res)
+{
+    if (res->fp != NULL)
+        fclose(res->fp);
+    if (res->out != NULL)
+        fclose(res->out);
+}
+/*
 parseOpts:解析选项
 c:选项字符
 res:参数包指针
@@ -130,6 +141,8 @@ bool parseOpts(char c, vpak_t *res)
         }
         break;
     case 'i':
+        if (res->fp != NULL)
+            fclose(res->fp);
         res->fp = fopen(optarg, "rb");
         fout_too_long = snprintf(fout, sizeof(fout), "%s.wenc", optarg) >= (int)sizeof(fout);
         try
@@ -150,6 +163,8 @@ bool parseOpts(char c, vpak_t *res)
         res->size = fsize;
         break;
     case 'o':
+        if (res->out != NULL)
+            fclose(res->out);
         res->out = fopen(optarg, "wb+");
         if (res->out == NULL)
         {
@@ -265,6 +280,7 @@ u8_t *get_v_opt(int argc, char *argv[])
             break;
         if (!parseOpts(c, res))
         {
+            closeFiles(res);
             delete res;
             return NULL;
         }
@@ -272,6 +288,7 @@ u8_t *get_v_opt(int argc, char *argv[])
     if (res->mode == 'u')
     {
         strlog("Error :", "Wrong Mode");
+        closeFiles(res);
         delete res;
         return NULL;
     }
@@ -285,6 +302,7 @@ u8_t *get_v_opt(int argc, char *argv[])
         else if (!check_ctype(res->ctype))
         {
             strlog("Error :", "Wrong ctype");
+            closeFiles(res);
             delete res;
             return NULL;
         }
@@ -296,6 +314,7 @@ u8_t *get_v_opt(int argc, char *argv[])
         else if (!check_htype(res->htype))
         {
             strlog("Error :", "Wrong htype");
+            closeFiles(res);
             delete res;
             return NULL;
         }
@@ -307,6 +326,7 @@ u8_t *get_v_opt(int argc, char *argv[])
         if (res->fp == NULL)
         {
             strlog("Error :", "No file specified");
+            closeFiles(res);
             delete res;
             return NULL;
         }
@@ -318,6 +338,7 @@ u8_t *get_v_opt(int argc, char *argv[])
             if (res->out == NULL)
             {
                 strlog("Error :", "Could not open default output file, use -o");
+                closeFiles(res);
                 delete res;
                 return NULL;
             }
@@ -330,18 +351,21 @@ u8_t *get_v_opt(int argc, char *argv[])
         if (res->fp == NULL)
         {
             strlog("Error :", "No file specified");
+            closeFiles(res);
             delete res;
             return NULL;
         }
         if (res->key == NULL)
         {
             strlog("Error :", "No key specified");
+            closeFiles(res);
             delete res;
             return NULL;
         }
         if (res->mode == 'd' && res->out == NULL)
         {
             strlog("Error :", "No output file specified");
+            closeFiles(res);
             delete res;
             return NULL;
         }
